@@ -132,7 +132,7 @@ def check(run, tier):
     S.make_cert(1, "client")
     E.rsa_pair()
     n = common.NCPU
-    nreq = 250 if quick else 2500
+    nreq = 500 if quick else 2500
     with multiprocessing.Pool(n) as pool:
         outs = pool.map(_traffic, [(i, common.SEED * 101 + i, nreq) for i in range(n)])
     recs = list(prims)
